@@ -48,7 +48,54 @@ add("C07", "model_checking",
     "all contents for short lengths; result=CountMatch; replayed on count/count_raw/iter.count of every backend.",
     "DESIGN.md 4 C07", TRUST, BYTES_TECH)
 
+SUB_TECH = ("TLA+ loop-level models of the substring searchers (Two-Way incl. adaptive prefilter, packed pair, Rabin-Karp, Shift-Or, meta-searcher routing, "
+            "iterators) checked by TLC against the Bytes oracles over all needles x haystacks within bounds; oracle vectors replayed 1:1 and lifted "
+            "(block substitution + padding, lemma checked by TLC) on the real API under each forced dispatch level")
+add("C03", "model_checking",
+    "MC_Memmem: for every needle (0..5/6 symbols) x haystack x CPU-feature outcome x prefilter setting x ranker, the composed loop-level model (routing, Rabin-Karp below the "
+    "thresholds, packed pair with its length guard, Two-Way small/large period with the prefilter state threaded through) returns FindSub; MC_SubOracle emits every (needle, haystack) "
+    "pair over {0,1}, {0,1,2} and binary-with-one-foreign-byte with its oracle values and checks the lifting lemma; vectors are executed 1:1, padded (>= 16 / >= 64 byte routes) and "
+    "block-substituted (needles > 32 bytes) on memmem::find, Finder::find, FinderBuilder under forced AVX2/SSE2/fallback. The routing constants are scaled in the model; the real "
+    "constants are reached by the lifted replays.", "DESIGN.md 4 C03", TRUST + "; lifting lemma checked for s in {2,3} on bounded domains", SUB_TECH)
+add("C04", "model_checking", "As C03 for the reverse searchers (Two-Way reverse suffixes/shift, reverse Rabin-Karp, SearcherRev routing): result = RFindSub; replay on memmem::rfind, FinderRev::rfind, build_reverse.",
+    "DESIGN.md 4 C04", TRUST, SUB_TECH)
+add("C05", "model_checking",
+    "LoadsOK / aligned-loads-aligned are TLC invariants of every L-model with raw loads over every length x alignment x match placement x pair offset within bounds; the code is bound by "
+    "executing every vector (byte search, substring incl. lifted, packed pair with extreme offsets, out-of-contract needles, is_equal family) with haystack and needle abutting PROT_NONE "
+    "pages on both sides in process-isolated children (debug and release builds) and by checking every hooked load against the slices.", "DESIGN.md 4 C05",
+    TRUST + "; SWAR word reads and byte loops are observed through guard pages / debug-build alignment checks only (no hook)", "TLA+ load-bound invariants + guard-page and hooked-load replay of TLC vectors")
+add("C06", "model_checking",
+    "MemchrIter (action-style): every match set of every haystack up to 9 (thorough 10) bytes x every interleaving of next/next_back until three Nones, all iterator invariants in every "
+    "prefix; each complete behaviour replayed on Memchr/Memchr2/Memchr3 and One/Two/Three::iter of every backend (stretched too), with size_hint, clone futures and count().",
+    "DESIGN.md 4 C06", TRUST, "TLA+ action spec of generic::Iter with history variable; all call orders replayed")
+add("C08", "model_checking", "MC_Memmem with Parts iter/riter: FindIter (pos, prefilter state carried across next()) and FindRevIter (pos: Option) equal GreedyFwd/GreedyRev for all inputs/configs, "
+    "empty needle yields every offset; replay drives find_iter/rfind_iter to exhaustion (+2 calls) checking size_hint at every step.", "DESIGN.md 4 C08", TRUST, SUB_TECH)
+add("C09", "model_checking", "Differential S->I: one TLC vector set executed in every configuration (forced AVX2/SSE2/fallback, features alloc/none, +avx2 at compile time, logging, release, "
+    "rewritten simd128 copy; Miri aarch64/s390x/i686 as optional vehicles); all answers equal the model's.", "DESIGN.md 4 C09",
+    TRUST + "; emulated wasm intrinsics; no x86-64-without-SSE2 build possible here", "configuration matrix replay of TLC vectors")
+add("C10", "model_checking", "MC_Memmem with the ranker as a nondeterministic function (all 27 rankers on a 3-letter alphabet, all 4 on binary), both prefilter settings, every CPU outcome: results and "
+    "complete find_iter sequences equal the oracle for all; replay under a ranker table x Prefilter::{None,Auto} x forced dispatch, lifted so needles exceed 32 bytes.", "DESIGN.md 4 C10", TRUST, SUB_TECH)
+add("C11", "model_checking", "MC_PackedPair: all needles x every ordered offset pair x all haystack contents; prefilter <= FindSub, None => absent, candidate has both pair bytes, = F-spec; both mask kinds; "
+    "replayed on the real generic code at VB=2,4 and padded on SSE2/AVX2/portable.", "DESIGN.md 4 C11", TRUST + "; NEON/simd128 prefilters via optional vehicles", "TLA+ L-model of packed-pair prefilter + exact replay on scaled generic code")
+add("C12", "model_checking", "MC_TwoWay/MC_SubBlocks1/MC_PackedPair step the building blocks over all needles x haystacks over 2/3-letter alphabets; replay on twoway/rabinkarp/shiftor/packedpair finders (1:1, lifted).",
+    "DESIGN.md 4 C12", TRUST, SUB_TECH)
+add("C13", "model_checking", "Linear-work invariants on the cost-annotated L-models (exhaustive on bounded domains) + Trace_Cost validation of the hooks' deterministic step counters on adversarial "
+    "families up to 2^18 (thorough 2^22) bytes. An asymptotic claim is decided only up to explored sizes/families.", "DESIGN.md 4 C13, 8", TRUST + "; counters from cfg(memchr_verif) hooks", "cost-annotated TLA+ models + TLC trace validation of recorded step counters")
+add("C14", "model_checking", "bad/panic flags of all L-models are invariants; all vector families executed with debug assertions and overflow checks under catch_unwind; packed-pair panic exactly below min_haystack_len.",
+    "DESIGN.md 4 C14", TRUST, "TLA+ NoPanic invariants + replay in checked builds")
+add("C15", "model_checking", "Ifunc: every interleaving of 3 threads x 2 calls with Relaxed semantics (modification order + views), all CPU outcomes, liveness under WF; native racing first calls in fresh processes "
+    "and shared finders validated by TLC (Trace_Lib); dispatcher events checked against the per-thread projection.", "DESIGN.md 4 C15", TRUST + "; real schedules sampled", "TLA+ action spec with relaxed-memory views + trace validation of racing executions")
+add("C16", "model_checking", "MC_MemmemObjects: every order of find/next/clone/clone_next/into_owned/drop_buffer up to Depth; history independence and clone/owned futures; replayed on real objects with the "
+    "needle buffer really overwritten and dropped.", "DESIGN.md 4 C16", TRUST, "TLA+ action spec of finder/iterator objects; behaviours replayed")
+add("C17", "exploration", "Counting global allocator armed per call over every oracle vector (1:1, lifted, every dispatch level) and every iterator behaviour; the spec contributes the operation classification "
+    "(Trace_Lib: al = 0 unless own) and the inputs, no exhaustiveness.", "DESIGN.md 4 C17, 8", TRUST + "; allocation is not modelled inside actions", "allocation counting on TLC-generated inputs")
+add("C18", "model_checking", "MC_IsEqual: all binary pairs up to 7/8 bytes + equal-length pairs up to 48/72 bytes with <= 2 differences; L-model of the 4/2/1 loop = equality, wrappers = starts_with/ends_with; replay with "
+    "8x8 alignments, guard pages, aliasing operands.", "DESIGN.md 4 C18", TRUST, "TLA+ L-model of is_equal_raw + replay")
+add("C19", "model_checking", "MC_Pair: all needles over 3 letters x 27 rankers with scaled cap, long needles around the real cap 255; with_indices acceptance; finders report their pair and min length.",
+    "DESIGN.md 4 C19", TRUST, "TLA+ L-model of pair selection + replay")
+
 NOT_YET = {}
+
 for p in TITLES:
     if p not in CHECKS:
         NOT_YET[p] = "check under construction in this round (see DESIGN.md section 10 for the order); no claim is made yet"
